@@ -29,6 +29,8 @@ class _ObjClasses(dict):
             self["_Version"] = (V._Version, list(V._Version._fields))
             self["Version"] = (V.Version, ["_version", "_key"])
             self["_TrimmedRelease"] = (V._TrimmedRelease, ["_version", "_key"])
+            from packaging import tags as T
+            self["Tag"] = (T.Tag, ["_interpreter", "_abi", "_platform", "_hash"])
 
     def __contains__(self, k):
         self._load()
@@ -53,6 +55,8 @@ def enc_val(v) -> str:
         return "i" + str(v)
     if isinstance(v, str):
         return "s" + core.enc(v)
+    if isinstance(v, Env):
+        return "L[" + ",".join("U[" + enc_val(k) + "," + enc_val(x) + "]" for k, x in v) + "]"
     if isinstance(v, list):
         return "L[" + ",".join(enc_val(x) for x in v) + "]"
     tn = type(v).__name__
@@ -62,7 +66,8 @@ def enc_val(v) -> str:
         return "p"
     if tn in _OBJ_CLASSES:
         cls, fields = _OBJ_CLASSES[tn]
-        return "O" + tn + "{" + ",".join(f"{k}={enc_val(getattr(v, k))}" for k in fields) + "}"
+        # hash values are the interpreter's (and randomised for str): the run-time's stand-in is 0
+        return "O" + tn + "{" + ",".join(f"{k}={'i0' if k == '_hash' else enc_val(getattr(v, k))}" for k in fields) + "}"
     if isinstance(v, tuple):
         return "U[" + ",".join(enc_val(x) for x in v) + "]"
     if isinstance(v, types.GeneratorType) or (hasattr(v, "__next__") and hasattr(v, "__iter__")):
@@ -222,6 +227,122 @@ def _g_cmpkey(rng):
     return [v.epoch, v.release, v.pre, v.post, v.dev, v.local]
 
 
+# ------------------------------------------------------------------------------------------------ environment
+class Env(list):
+    """the first argument of a translated function that reads the world outside: [(key, value), …] as in PyRt.Env"""
+
+
+def _apply_env(env):
+    """patch packaging.tags so that the real function sees the environment `env`; returns an undo function"""
+    import sys as real_sys
+    from packaging import tags as T
+    d = dict(env)
+    saved = {k: getattr(T, k) for k in ("sys", "sysconfig", "platform_tags", "EXTENSION_SUFFIXES")}
+
+    class FakeSys:
+        def __getattr__(self, name):
+            if name == "gettotalrefcount":
+                if d.get("hasattr(sys,gettotalrefcount)"):
+                    return lambda: 0
+                raise AttributeError(name)
+            return getattr(real_sys, name)
+    fs = FakeSys()
+    if "sys.version_info" in d:
+        fs.version_info = d["sys.version_info"]
+    if "sys.maxunicode" in d:
+        fs.maxunicode = d["sys.maxunicode"]
+    T.sys = fs
+    if "sysconfig.get_config_var" in d:
+        table = {k[0]: v for k, v in d["sysconfig.get_config_var"]}
+
+        class FakeSysconfig:
+            @staticmethod
+            def get_config_var(name):
+                return table[name]
+        T.sysconfig = FakeSysconfig
+    if "platform_tags" in d:
+        plats = list(d["platform_tags"][0][1])
+        T.platform_tags = lambda: iter(plats)
+    if "EXTENSION_SUFFIXES" in d:
+        T.EXTENSION_SUFFIXES = d["EXTENSION_SUFFIXES"]
+
+    def undo():
+        for k, v in saved.items():
+            setattr(T, k, v)
+    return undo
+
+
+PLATS = ["linux_x86_64", "manylinux2014_x86_64", "any", "win_amd64", "macosx_11_0_arm64", "Linux_X86", "a-b", ""]
+ABIS = ["cp313", "cp313t", "cp39", "cp312d", "abi3", "none", "cp3", "cpx", "cp", "cp31\nt", "CP313T", "pypy39_pp73", "cp313td", ""]
+
+
+def _g_env(rng):
+    cfgval = lambda: rng.choice([None, None, 0, 1, 4, 2, "", "1", "yes"])
+    return Env([
+        ("sys.version_info", tuple(rng.choice([[3, 12], [3, 13], [3, 7], [3, 2], [2, 7], [3, 0], [3], [4, 1]]))),
+        ("platform_tags", [((), iter(rng.sample(PLATS, rng.choice([0, 1, 2, 3]))))]),
+        ("sysconfig.get_config_var", [((n,), cfgval()) for n in ("Py_DEBUG", "Py_GIL_DISABLED", "WITH_PYMALLOC", "Py_UNICODE_SIZE")]),
+        ("hasattr(sys,gettotalrefcount)", rng.random() < 0.3),
+        ("EXTENSION_SUFFIXES", rng.choice([[], ["_d.pyd"], [".so", "_d.pyd"], [".pyd"]])),
+        ("sys.maxunicode", rng.choice([1114111, 65535])),
+    ])
+
+
+def _g_pyversion(rng, allow_none=True):
+    opts = [[3, 13], [3, 12], [3, 8], [3, 7], [3, 3], [3, 2], [3, 1], [3, 0], [2, 7], [3], [2], [3, 13, 1], [4, 0], [0, 0], [3, 20]]
+    if allow_none:
+        opts += [None, None, []]
+    v = rng.choice(opts)
+    return None if v is None else (tuple(v) if rng.random() < 0.7 else list(v))
+
+
+def _g_plats(rng):
+    return rng.choice([None, None, [], rng.sample(PLATS, rng.choice([1, 2, 3]))])
+
+
+def _g_abis(rng):
+    if rng.random() < 0.3:
+        return None
+    return rng.sample(ABIS, rng.choice([0, 1, 2, 3, 4]))
+
+
+def _g_py_interpreter_range(rng):
+    return [_g_pyversion(rng, allow_none=False)]
+
+
+def _g_abi3_applies(rng):
+    return [_g_pyversion(rng, allow_none=False), rng.random() < 0.4]
+
+
+def _g_is_threaded(rng):
+    return [rng.sample(ABIS, rng.choice([0, 1, 1, 2, 3]))]
+
+
+def _g_compatible_tags(rng):
+    return [_g_env(rng), _g_pyversion(rng), rng.choice([None, None, "", "cp313", "pp39", "CP3"]), _g_plats(rng)]
+
+
+def _g_cpython_tags(rng):
+    return [_g_env(rng), _g_pyversion(rng), _g_abis(rng), _g_plats(rng), rng.random() < 0.3]
+
+
+def _g_cpython_abis(rng):
+    return [_g_env(rng), _g_pyversion(rng, allow_none=False), rng.random() < 0.3]
+
+
+def _g_get_config_var(rng):
+    return [_g_env(rng), rng.choice(["Py_DEBUG", "Py_GIL_DISABLED", "WITH_PYMALLOC", "Py_UNICODE_SIZE"]), rng.random() < 0.5]
+
+
+def _g_version_nodot(rng):
+    return [_g_pyversion(rng, allow_none=False)]
+
+
+def _g_tag_init(rng):
+    from packaging import tags as T
+    return [object.__new__(T.Tag), rng.choice(["cp313", "CP39", "py3"]), rng.choice(ABIS), rng.choice(PLATS)]
+
+
 # lean name -> (module, attribute path, argument generator)
 FUNCS = {
     "_parse_letter_version": ("packaging.version", "_parse_letter_version", _g_parse_letter_version),
@@ -240,7 +361,18 @@ FUNCS = {
     "Version.post": ("packaging.version", "Version.post", _g_version_method(0.1)),
     "Version.dev": ("packaging.version", "Version.dev", _g_version_method(0.1)),
     "Version.local": ("packaging.version", "Version.local", _g_version_method(0.1)),
+    "_version_nodot": ("packaging.tags", "_version_nodot", _g_version_nodot),
+    "_py_interpreter_range": ("packaging.tags", "_py_interpreter_range", _g_py_interpreter_range),
+    "_abi3_applies": ("packaging.tags", "_abi3_applies", _g_abi3_applies),
+    "_is_threaded_cpython": ("packaging.tags", "_is_threaded_cpython", _g_is_threaded),
+    "compatible_tags": ("packaging.tags", "compatible_tags", _g_compatible_tags),
+    "cpython_tags": ("packaging.tags", "cpython_tags", _g_cpython_tags),
+    "_cpython_abis": ("packaging.tags", "_cpython_abis", _g_cpython_abis),
+    "_get_config_var": ("packaging.tags", "_get_config_var", _g_get_config_var),
 }
+
+
+ENV_FUNCS = {"compatible_tags", "cpython_tags", "_cpython_abis", "_get_config_var"}
 
 
 class _Src:
@@ -260,13 +392,24 @@ class _Src:
         except Exception as e:
             return "gone " + type(e).__name__
         vals = [dec_val(a) for a in args[1:]]
+        undo = None
+        if name in ENV_FUNCS:
+            env = vals.pop(0)
+            undo = _apply_env([(k, (list(v) if k == "platform_tags" else v)) for k, v in env])
         try:
-            r = f(*vals)
+            import inspect
+            params = list(inspect.signature(f).parameters.values())
+            pos = [v for p_, v in zip(params, vals) if p_.kind != p_.KEYWORD_ONLY]
+            kw = {p_.name: v for p_, v in zip(params, vals) if p_.kind == p_.KEYWORD_ONLY}
+            r = f(*pos, **kw)
             return "ok " + enc_val(r)          # a generator's body runs here, inside the try
         except RecursionError:
             return core.RESOURCE_LIMIT
         except Exception as e:
             return "raise " + type(e).__name__
+        finally:
+            if undo is not None:
+                undo()
 
     def branch(self, args, out):
         head = out.split(" ", 1)
